@@ -66,3 +66,16 @@ Theorem C05_wavesim_model_predicted : forall c caps reuse strip delays actrl abu
       exists w, nth p (w_capt r) None = Some (six (capture w tcap)) /\
                 KV.Proofs.WaveCircuit.predicts w (cexec (build_ops c false) e8 l0).
 Proof. exact KV.Proofs.WaveSimGlue.wavesim_model_predicted. Qed.
+
+(** SOURCE TIE (see C03_kernel_source_is_model): the merge kernel as translated from the current text of wave_sim._wave_eval
+    (Gen/WaveEvalSrc.v, regenerated on every run) computes the model [wave_eval]; hence a LUT that is constant on the cube
+    spanned by the active operands makes the SOURCE store a waveform without any transition. *)
+From KV Require Import Model.WaveSrcPrelude Gen.WaveEvalSrc.
+From KV Require Proofs.WaveEvalSrcProofs Proofs.WaveEvalSrcCorollaries.
+Theorem C05_source_no_change_no_edge : forall lut ws ds zreg s nr nf, wf_args ws ds zreg ->
+  WaveEvalSrc.wave_eval_src (KV.Proofs.WaveEvalSrcProofs.model_fuel ws) (Z.of_N lut) ws ds zreg = Some (s, (nr, nf)) ->
+  (forall vs : list bool, List.length vs = 4 ->
+     (forall k, k < 4 -> has_finite (nth k ws []) = false -> nth k vs false = init_val (nth k ws [])) ->
+     lut_at lut vs = lut_at lut (map init_val ws)) ->
+  has_finite (KV.Proofs.WaveEvalSrcCorollaries.src_z s) = false.
+Proof. exact KV.Proofs.WaveEvalSrcCorollaries.src_no_change_no_edge. Qed.
